@@ -67,6 +67,13 @@ def generate(rng, tier):
         cases.append({"op": "find_eps", "f": f, "target": {"kind": "gaussprec", "d": d, "prec": [fb(A[i][j]) for i in range(d) for j in range(d)]},
                       "position": [fb(rng.choice([-2.0, -0.5, 0.0, 0.25, 1.0, 3.0])) for _ in range(d)],
                       "momentum": [fb(rng.choice([-1.5, -0.5, 0.5, 1.0, 2.0])) for _ in range(d)]})
+    # ... and on the half-line target, whose log-density is -inf outside x0 > 0 (steps that leave the support)
+    for _ in range(24 if tier == "quick" else 240):
+        f = rng.choice(["f32", "f64"])
+        d = rng.randint(1, 3)
+        cases.append({"op": "find_eps", "f": f, "target": {"kind": "halfline", "d": d},
+                      "position": [fb(rng.choice([0.125, 0.5, 1.0, 4.0, 0.015625]))] + [fb(rng.choice([-1.0, 0.0, 0.5, 2.0])) for _ in range(d - 1)],
+                      "momentum": [fb(rng.choice([-4.0, -2.0, -0.5, -0.25, 0.5, 1.0, 3.0])) for _ in range(d)]})
     return cases
 
 
@@ -80,22 +87,37 @@ LN_HALF = math.log(0.5)
 def find_eps_exact(case):
     """find_reasonable_epsilon in exact rational arithmetic; returns (eps, smallest |lap - ln 1/2| met)"""
     d = case["target"]["d"]
-    A = [[Fraction(N.bf(case["target"]["prec"][i * d + j])) for j in range(d)] for i in range(d)]
     x = [Fraction(N.bf(b)) for b in case["position"]]
     p = [Fraction(N.bf(b)) for b in case["momentum"]]
+    if case["target"]["kind"] == "halfline":
+        def logp(v):
+            return -v[0] - sum(t * t for t in v[1:]) / 2 if v[0] > 0 else None       # None: -inf
 
-    def logp(v):
-        return -sum(v[i] * A[i][j] * v[j] for i in range(d) for j in range(d)) / 2
+        def grad(v):
+            return [Fraction(-1)] + [-t for t in v[1:]] if v[0] > 0 else [Fraction(0)] * d
+    else:
+        A = [[Fraction(N.bf(case["target"]["prec"][i * d + j])) for j in range(d)] for i in range(d)]
 
-    def grad(v):
-        return [-sum((A[i][j] + A[j][i]) * v[j] for j in range(d)) / 2 for i in range(d)]
+        def logp(v):
+            return -sum(v[i] * A[i][j] * v[j] for i in range(d) for j in range(d)) / 2
+
+        def grad(v):
+            return [-sum((A[i][j] + A[j][i]) * v[j] for j in range(d)) / 2 for i in range(d)]
 
     def lap(e):
         p1 = [pi + e / 2 * g for pi, g in zip(p, grad(x))]
         x1 = [xi + e * pi for xi, pi in zip(x, p1)]
         p2 = [pi + e / 2 * g for pi, g in zip(p1, grad(x1))]
+        if logp(x1) is None:
+            return -math.inf
         return float(logp(x1) - logp(x) - (sum(q * q for q in p2) - sum(q * q for q in p)) / 2)
     margin = math.inf
+    if case["target"]["kind"] == "halfline":
+        # a trajectory point within rounding of the boundary x0 = 0 makes the float run ambiguous as well
+        def bmargin(e):
+            p1 = p[0] + e / 2 * grad(x)[0]
+            return abs(float(x[0] + e * p1))
+        margin = min(bmargin(Fraction(2) ** k) for k in range(-45, 12))
     l = lap(Fraction(1))
     margin = min(margin, abs(l - LN_HALF))
     up = l > LN_HALF
@@ -156,6 +178,9 @@ def sel(case, out):
 def coq_term(case, out):
     if "panic" in out or "timeout" in out or "crash" in out:
         return None
+    if case["op"] == "find_eps" and case["target"]["kind"] == "halfline":
+        q = lambda b: N.dy(N.bf(b))
+        return "find_eps_x_eval [%s] [%s]" % ("; ".join(q(b) for b in case["position"]), "; ".join(q(b) for b in case["momentum"]))
     if case["op"] == "find_eps":
         d = case["target"]["d"]
         q = lambda b: N.dy(N.bf(b))
